@@ -122,7 +122,8 @@ Section Equal.
               | TDVariant va, TDVariant vb =>
                   if negb (Nat.eqb (List.length va) (List.length vb)) then Ok (false, st)
                   else all2 (fun x y st =>
-                               if String.eqb (v_name x) (v_name y)
+                               (* F19 repair: the variant index is compared as well *)
+                               if String.eqb (v_name x) (v_name y) && N.eqb (v_index x) (v_index y)
                                then fields_equal (v_fields x) (v_fields y) st
                                else Ok (false, st)) va vb st
               | TDSequence x, TDSequence y => recurse x y st
